@@ -27,14 +27,18 @@ class PathLimit(Exception):
 
 # ------------------------------------------------------------------ values
 class I:
-    """integer value: python int (normalised, unsigned representation) or z3 bit-vector"""
-    __slots__ = ('v', 'ty')
+    """integer value: python int (normalised, unsigned representation) or z3 bit-vector.
+    Optional decimal-structure annotation `dec` = [d_0, d_1, ...] (8-bit digit terms, each assumed <= 9, least significant
+    first) stating value = sum d_i * 10^i without wrap-around; `negof` = the annotated magnitude of a negative value."""
+    __slots__ = ('v', 'ty', 'dec', 'negof')
 
-    def __init__(self, v, ty):
+    def __init__(self, v, ty, dec=None, negof=None):
         if isinstance(v, int):
             v &= (1 << BITS[ty]) - 1
         self.v = v
         self.ty = ty
+        self.dec = dec
+        self.negof = negof
 
     def sym(self):
         return not isinstance(self.v, int)
@@ -60,6 +64,53 @@ def mk_int(v, ty):
         if z3.is_bv_value(v):
             v = v.as_long()
     return I(v, ty)
+
+
+def mk_dec(digits, ty):
+    """the integer whose decimal digits (least significant first) are the given 8-bit terms"""
+    bits = BITS[ty]
+    if not digits:
+        return I(0, ty)
+    total = None
+    for i, d in enumerate(digits):
+        t = z3.ZeroExt(bits - 8, d) * z3.BitVecVal(10 ** i, bits)
+        total = t if total is None else total + t
+    return I(z3.simplify(total), ty, dec=list(digits))
+
+
+def dec_limit(ty, neg=False):
+    bits = BITS[ty]
+    if neg:
+        return 1 << (bits - 1)
+    return (1 << bits) - 1 if ty[0] == 'u' else (1 << (bits - 1)) - 1
+
+
+def dec_fits(digits, lim):
+    """z3 condition: the number with these digits (least significant first, each <= 9) is <= lim  (lexicographic on digits)"""
+    ld = [int(c) for c in reversed(str(lim))]
+    n = len(digits)
+    if n < len(ld):
+        return z3.BoolVal(True)
+    # digits beyond the length of lim must be zero
+    conds = [digits[i] == 0 for i in range(len(ld), n)]
+    le = z3.BoolVal(True)           # comparison of the low len(ld) digits, built from the least significant end
+    for i in range(len(ld)):
+        le = z3.Or(z3.ULT(digits[i], ld[i]), z3.And(digits[i] == ld[i], le))
+    return z3.And(conds + [le]) if conds else le
+
+
+def as_digit(b):
+    """if the I value is a zero-extension of an 8-bit term (or a small constant) return that 8-bit term"""
+    if not b.sym():
+        return z3.BitVecVal(b.v, 8) if b.v <= 9 else None
+    t = b.v
+    if z3.is_app_of(t, z3.Z3_OP_ZERO_EXT) and t.arg(0).size() == 8:
+        return t.arg(0)
+    if z3.is_app_of(t, z3.Z3_OP_CONCAT) and t.num_args() == 2 and z3.is_bv_value(t.arg(0)) and t.arg(0).as_long() == 0 and t.arg(1).size() == 8:
+        return t.arg(1)
+    if t.size() == 8:
+        return t
+    return None
 
 
 def mk_bool(b):
@@ -522,7 +573,7 @@ def parse_stmt(s):
 
 # ------------------------------------------------------------------ engine
 class Machine:
-    def __init__(self, prog, timeout_ms=20000):
+    def __init__(self, prog, timeout_ms=3000):
         self.prog = prog            # Program
         self.solver = z3.Solver()
         self.solver.set('timeout', timeout_ms)
@@ -536,6 +587,8 @@ class Machine:
         self.cache = prog.qcache    # feasibility cache keyed by decision prefix + query counter
         self.qn = 0
         self.events = []
+        self.divcache = {}
+        self.divterms = []
 
     # ---- decisions
     def decide(self, n, label=None):
@@ -561,7 +614,9 @@ class Machine:
         self.prog.solver_time += time.time() - t0
         self.solver.pop()
         if res == z3.unknown:
-            raise Unsupported('solver returned unknown on a feasibility query')
+            res = cvc5_check(self.pc + [cond], self.prog)
+            if res is None:
+                raise Unsupported('solver returned unknown on a feasibility query (z3 and cvc5)')
         r = res == z3.sat
         self.cache[key] = r
         return r
@@ -741,6 +796,59 @@ class Machine:
             if op.endswith('WithOverflow'):
                 return [I(r, ty), not (lo <= r <= hi)]
             return I(r, ty)
+        # ---- decimal-structure rules (arithmetic identities on values annotated with their decimal digits; every digit is
+        # assumed <= 9 in the path condition; listed in the evidence as lemmas L1-L3)
+        if (a.dec is not None or a.negof is not None) and not b.sym():
+            mag = a if a.dec is not None else a.negof
+            if op in ('Eq', 'Ne') and b.v == 0:
+                z = mk_bool(z3.And([d == 0 for d in mag.dec]))
+                return z if op == 'Eq' else bnot(z)
+            if op in ('Lt', 'Ge') and b.v == 0 and sg:
+                # a decimal-annotated non-negative value is >= 0; a negated non-zero magnitude within range is < 0
+                if a.negof is None:
+                    return op == 'Ge'
+                nz = mk_bool(z3.Or([d != 0 for d in mag.dec]))
+                return nz if op == 'Lt' else bnot(nz)
+            if op == 'MulWithOverflow' and b.v == 10:
+                nd = [z3.BitVecVal(0, 8)] + list(mag.dec)
+                fits = dec_fits(nd, dec_limit(ty, a.negof is not None))
+                self.prog.used_lemmas.add(('mul10', bits, len(nd)))
+                if a.dec is not None:
+                    r = mk_dec(nd, ty)
+                else:
+                    m2 = mk_dec(nd, 'u' + ty[1:])
+                    r = I(z3.simplify(-m2.z()), ty, negof=m2)
+                return [r, bnot(mk_bool(fits))]
+        if op in ('AddWithOverflow', 'SubWithOverflow') and not a.sym() and a.v == 0 and a.dec is None and a.negof is None and b.sym() and bits >= 32:
+            # seed: 0 + d / 0 - d for a term d that the path condition bounds by 9 starts a decimal-annotated accumulator
+            dg = as_digit(b)
+            if dg is not None and (op == 'AddWithOverflow' or sg) and not self.feasible(z3.UGT(dg, 9)):
+                if op == 'AddWithOverflow':
+                    return [mk_dec([dg], ty), False]
+                m2 = mk_dec([dg], 'u' + ty[1:])
+                return [I(z3.simplify(-m2.z()), ty, negof=m2), False]
+        if (a.dec is not None or a.negof is not None) and op in ('AddWithOverflow', 'SubWithOverflow'):
+            mag = a if a.dec is not None else a.negof
+            dg = as_digit(b)
+            if dg is not None and mag.dec and z3.is_bv_value(mag.dec[0]) and mag.dec[0].as_long() == 0 and \
+                    ((op == 'AddWithOverflow' and a.dec is not None) or (op == 'SubWithOverflow' and a.negof is not None)) and \
+                    not self.feasible(z3.UGT(dg, 9)):
+                nd = [dg] + list(mag.dec[1:])
+                fits = dec_fits(nd, dec_limit(ty, a.negof is not None))
+                self.prog.used_lemmas.add(('add-digit', bits, len(nd)))
+                if a.dec is not None:
+                    r = mk_dec(nd, ty)
+                else:
+                    m2 = mk_dec(nd, 'u' + ty[1:])
+                    r = I(z3.simplify(-m2.z()), ty, negof=m2)
+                return [r, bnot(mk_bool(fits))]
+        if op in ('Div', 'Rem') and not sg and not b.sym() and b.v == 10 and a.dec is not None:
+            # decimal-structure lemma (discharged separately per width and digit count, see lemma_dec):
+            # (sum_{i<n} d_i 10^i) div 10 = sum_{i>=1} d_i 10^(i-1) and mod 10 = d_0
+            self.prog.used_lemmas.add((bits, len(a.dec)))
+            if op == 'Div':
+                return mk_dec(a.dec[1:], ty)
+            return mk_int(z3.ZeroExt(bits - 8, a.dec[0]), ty)
         x = a.z()
         if op in ('Shl', 'Shr', 'ShlUnchecked', 'ShrUnchecked'):
             y = b.z()
@@ -770,8 +878,27 @@ class Machine:
         if op in ('Mul', 'MulWithOverflow', 'MulUnchecked'):
             r = mk_int(x * y, ty)
             if op != 'MulWithOverflow': return r
-            ov = z3.Not(z3.And(z3.BVMulNoOverflow(x, y, sg), z3.BVMulNoUnderflow(x, y) if sg else True))
+            # overflow by widening (z3's bvumul_noovfl / bvsmul_noovfl are not SMT-LIB, cvc5 cannot read them)
+            if sg:
+                wide = z3.SignExt(bits, x) * z3.SignExt(bits, y)
+                ov = wide != z3.SignExt(bits, x * y)
+            else:
+                wide = z3.ZeroExt(bits, x) * z3.ZeroExt(bits, y)
+                ov = z3.Extract(2 * bits - 1, bits, wide) != 0
             return [r, mk_bool(ov)]
+        if op in ('Div', 'Rem') and not sg and not b.sym() and b.v > 1 and bits >= 32:
+            # unsigned division by a constant d: fresh (q, r) with a = q*d + r, r < d, q <= MAX/d (sound and complete, and
+            # multiplication by a constant bit-blasts to a few adders where a divider circuit does not finish)
+            key = (x.get_id(), b.v)
+            qr = self.divcache.get(key)
+            if qr is None:
+                k = len(self.divcache)
+                q, r = z3.BitVec('q!%d' % k, bits), z3.BitVec('r!%d' % k, bits)
+                self.assume(z3.And(x == q * y + r, z3.ULT(r, y), z3.ULE(r, x), z3.ULE(q, z3.BitVecVal(((1 << bits) - 1) // b.v, bits))))  # ULE(r, x): the sum does not wrap
+                qr = (q, r)
+                self.divcache[key] = qr
+                self.divterms.append((x, b.v, q, r))
+            return mk_int(qr[0] if op == 'Div' else qr[1], ty)
         if op == 'Div': return mk_int(x / y if sg else z3.UDiv(x, y), ty)
         if op == 'Rem': return mk_int(z3.SRem(x, y) if sg else z3.URem(x, y), ty)
         if op == 'BitAnd': return mk_int(x & y, ty)
@@ -929,6 +1056,39 @@ class Machine:
             bb = nxt
 
 
+def smt2_of(assertions):
+    s = z3.Solver()
+    s.add(assertions)
+    smt = "(set-logic ALL)\n" + s.to_smt2()
+    # z3 prints its internal "divisor known non-zero" operators
+    for a in ('bvudiv', 'bvurem', 'bvsdiv', 'bvsrem', 'bvsmod'):
+        smt = smt.replace(a + '_i', a)
+    return smt
+
+
+def cvc5_check(assertions, prog=None, cap_s=60):
+    """second opinion with bit-vectors solved as integers (divide-by-constant chains); -> z3.sat | z3.unsat | None"""
+    import tempfile
+    t0 = time.time()
+    with tempfile.NamedTemporaryFile('w', suffix='.smt2', delete=False) as f:
+        f.write(smt2_of(assertions))
+        path = f.name
+    try:
+        out = subprocess.run(['cvc5', '--lang', 'smt2', '--solve-bv-as-int=sum', '--tlimit=%d' % (cap_s * 1000), path],
+                             stdout=subprocess.PIPE, stderr=subprocess.STDOUT, text=True, timeout=cap_s + 20).stdout.strip()
+    except subprocess.TimeoutExpired:
+        out = 'timeout'
+    finally:
+        os.unlink(path)
+    if prog is not None:
+        prog.solver_time += time.time() - t0
+        prog.n_cvc5 = getattr(prog, 'n_cvc5', 0) + 1
+    if '(error' in out:
+        return None
+    first = out.split('\n')[0] if out else ''
+    return z3.sat if first == 'sat' else (z3.unsat if first == 'unsat' else None)
+
+
 class Frame:
     __slots__ = ('fn', 'locals', 'subst')
 
@@ -956,6 +1116,7 @@ class Program:
         self.drop_hook = None
         self.used_fns = set()
         self.used_models = set()
+        self.used_lemmas = set()
 
     def parsed_blocks(self, f):
         if not f.parsed:
